@@ -248,7 +248,16 @@ func one(e *etcdgate.Etcd, plain *clientv3.Client, bi int, beh []cli.Step) ([]tr
 		ev := trace.Ev{"ev": st.Action, "beh": bi, "step": si, "m": m, "res": "ok", "rec_before": owner(), "stored_before": stored(), "served_max": 0, "own_end": 0}
 		switch st.Action {
 		case "Campaign":
-			if err := c.mem.CampaignLeader(ttl); err != nil {
+			// every other campaign carries a further comparison that holds, the way the per-datacenter allocators campaign
+			// ("no next leader designated"): it must not replace the "no leader record yet" condition
+			var cerr error
+			if si%2 == 1 {
+				cerr = c.mem.GetLeadership().Campaign(ttl, c.mem.MemberValue(), clientv3.Compare(clientv3.CreateRevision(root+"/next-leader"), "=", 0))
+				ev["extra_cmp"] = true
+			} else {
+				cerr = c.mem.CampaignLeader(ttl)
+			}
+			if cerr != nil {
 				ev["res"] = "err"
 				break
 			}
